@@ -6,6 +6,20 @@ VERIF = os.path.dirname(HERE)
 ALL = ["C%02d" % i for i in range(1, 19)]
 
 CLAIMS = {
+    "C13": dict(
+        text=("Rocq proof over the effect-ordering model (abstract world machine with the external effects of a reindex in "
+              "order: per-page commits, hash map, per-page file write-back and hash refresh): `db create` converges from any "
+              "state a killed run can leave; `db reindex` killed after ANY number of its per-page commits (every boundary "
+              "before the hash map is written) followed by a re-run leaves index and files in agreement with every note "
+              "carrying its ZID; the window after the hash-map write is REFUTED by a witness (known finding). On every run "
+              "the real commands are killed (os._exit in a child process) right before EVERY external effect - exhaustive "
+              "over crash points - re-run, and judged: exit 0, every note has a ZID, index == recompiled files, no duplicate "
+              "ZID, no user text lost."),
+        note=("The machine abstracts compilation, SHA-256 and SQL; SQLite durability and atomic file writes are assumed; "
+              "real crash points are finer than the model's (commits inside remove_file_by_name). Known findings: the "
+              "window after the hash-map write; the stamp-commit-before-write-back window."),
+        technique="Rocq proof (crash-state invariant on an effect-ordering model) + exhaustive real kill-and-rerun at every effect boundary",
+        design="§5 C13"),
     "C06": dict(
         text=("Rocq proof over an abstract world machine (per page: file content, indexed page, content whose hash is "
               "stored; ZID supply an arbitrary parameter): for EVERY history of page edits (incl. new pages), day changes, "
